@@ -99,17 +99,23 @@ CHECKS = {
          "Partial: template-literal patterns (regex semantics), intersections and tuples (both have known findings) and the link "
          "'members of a discriminator dispatch node = flattened union' are outside the theorem and covered by the search; object types are read as "
          "'non-null objects' (beff's reading), ${number} as TypeScript's in the reference and as the emitted pattern in rmember."),
- "C05": ("Theorems (Model/Subtype.v = SemTypeOps::is_empty/is_subtype/is_same_type; list and mapping emptiness are a parameter): "
-         "C05_difference_is_set_difference (difference of whole semantic types = set difference, every valid point, every valuation of "
-         "the atoms); C05_assignable_implies_inclusion: an 'assignable' answer implies inclusion of the denoted sets for all well-formed "
-         "types, structural components included, provided the emptiness oracle for lists/mappings is sound on realisable points; "
-         "C05_basic_types_assignability_is_inclusion: on the basic fragment (null, booleans, numbers, strings, their literals, unions, "
-         "differences) the decision is exact in both directions (a 'not assignable' answer comes with a separating value: fresh number / "
-         "string constructions); is_same_type answers true exactly when both directions do. Partial: the emptiness procedures for lists "
-         "and mappings (Frisch's Phi', check_mapping_empty, the memoised co-inductive cut) are not modelled; for structural types the "
-         "property is decided on the implementation by comparing every decision, on generated pairs converted in both orders and queried "
-         "in two orders, with a bounded enumeration of the exact values of the left type. Three genuine defects found this way were "
-         "repaired in /repo (fix: a6cefb8, 16f31f9, 3a0fd83).",
+ "C05": ("Theorems (Model/Subtype.v = SemTypeOps::is_empty/is_subtype/is_same_type; Model/ListEmpty.v = bdd_every_result, "
+         "list_formula_is_empty, list_inhabited, list_is_empty without its memo table): C05_difference_is_set_difference (difference of "
+         "whole semantic types = set difference, every valid point, every valuation of the atoms); C05_assignable_implies_inclusion: an "
+         "'assignable' answer implies inclusion of the denoted sets for all well-formed types, structural components included, provided "
+         "the emptiness oracle for lists/mappings is sound on realisable points; C05_list_types_assignable_implies_inclusion discharges "
+         "that proviso for lists: for every table of list atoms (arrays, tuples, tuples with rest, nested to any depth, not recursive) "
+         "and every pair of well-formed types, an 'assignable' answer of the modelled procedure implies that every value (points and "
+         "lists of values, membership by recursion on the value) of the first type is a value of the second (Proofs/ListSound.v: "
+         "Frisch's Phi' with shorter lists, positive meets and the escape through a later rest element; Proofs/SemWf.v: difference and "
+         "intersection preserve well-formedness); C05_basic_types_assignability_is_inclusion: on the basic fragment the decision is exact "
+         "in both directions (a 'not assignable' answer comes with a separating value); is_same_type answers true exactly when both "
+         "directions do. The list model is tied to bdd.rs by comparing its three decisions per pair with the engine's, using the engine's "
+         "own list atoms. Partial: completeness for lists ('not assignable' => a separating value), check_mapping_empty and the memoised "
+         "co-inductive cut (recursive types) are not modelled; there the property is decided on the implementation by comparing every "
+         "decision, on generated pairs converted in both orders and queried in two orders, with a bounded enumeration of the exact values "
+         "of the left type. Five genuine defects were repaired in /repo (fix: a6cefb8, 16f31f9, 3a0fd83, 10e351d — found while "
+         "proving list_inhabited sound — and 09b6a21).",
          "Bounded enumeration (depth 4, capped breadth, universe = literals of both types + one fresh string/number/key): a missing "
          "separating value is only reported when the enumeration was exhaustive; decisions involving intersections of object types or "
          "unions whose object members overlap as open patterns are listed findings (the exact/open reading of atoms is not a Boolean algebra)."),
@@ -155,10 +161,16 @@ CHECKS = {
          "code-unit order on ASCII constants."),
  "C12": ("Theorems: at most ten errors (all trees); at least one error for every rejected value outside the two known call "
          "sites (tuple without rest given surplus items; empty intersection) — C12_at_least_one_except_known, by induction "
-         "over the fuel of reportDecodeError for all trees/values; refutations with witnesses (no error; JSON.stringify of a "
-         "bigint thrown out of safeParse). 'Points into the input' and 'rendering is total and deterministic' are decided by "
-         "the Gallina predicate errors_ok / the model's print_errors evaluated on the implementation's errors (search).",
-         "Path resolution spec (Model/RuntimeSpec.v) is our reading of 'addresses a position'; strings are printable ASCII."),
+         "over the fuel of reportDecodeError for all trees/values; C12_errors_point_into_the_input_except_known — for every tree "
+         "whose index signatures have key type string, every environment of such trees and every rejected value, every error "
+         "safeParse returns (and, recursively, every member of a union error relative to its received value) has a path that "
+         "resolves in the input (object property present or missing, array position, Map key/value, Set member) to exactly the "
+         "value reported as `received` (Model/PointsSpec.v, Proofs/C12Points.v: induction over reportDecodeError incl. union error "
+         "assembly, depth filtering, de-duplication and prependPath); refutations with witnesses (no error; the key of an index "
+         "signature reported as received; JSON.stringify of a bigint thrown out of safeParse). The same clauses and 'rendering is "
+         "total and deterministic' are also decided by the Gallina predicate errors_ok / the model's print_errors evaluated on the "
+         "implementation's errors (search), and Model/Report.v is tied to the runtime by comparing errors and rendered messages.",
+         "Path resolution spec (Model/PointsSpec.v, RuntimeSpec.v) is our reading of 'addresses a position'; strings are printable ASCII."),
  "C16": ("Theorems (all trees, environments, context states, fuels): C16_schema_independent_of_context — two successful contextual "
          "prints of the same validator return the same JSON whatever is already collected or in progress (so every returned schema "
          "and every stored definition body equals the one a fresh context prints); C16_print_preserves_context_invariant — a "
